@@ -1,4 +1,4 @@
-//@ unit u2c_deletion_build props C01 C12 also C09
+//@ unit u2c_deletion_build props C01 C12 also C09 C11
 // Unit U2c: how a deletion submitted through the API is prepared (src/database/deletion.rs: DeletionQuery::build, the body of
 // its loop over the entities of the request, rule E14).  What validate_deletion (unit u2_verdicts) decides rests on what this
 // function records: for every reference it removes, the author and the room of the reference's SOURCE ROW and the date the row
@@ -86,6 +86,7 @@ pub open spec fn src_of(del: EntityDeletion, p: Parameters) -> Uid { spec_uid(sp
                             deletion_query.nodes == q0.nodes, deletion_query.node_log == q0.node_log, deletion_query.edge_log == q0.edge_log,
                             deletion_query.updated_nodes == q0.updated_nodes, deletion_query.replaced_versions == q0.replaced_versions,
                             is_prefix(q0.edges@, deletion_query.edges@),
+                            // [a_found_reference_is_remembered]{C01,C12,C11}
                             edge_found == (deletion_query.edges@.len() > q0.edges@.len()),
                             // [prepared_removals_record_the_source_row]{C01,C12}
                             forall|k: int| q0.edges@.len() <= k < deletion_query.edges@.len() ==> edge_of_row(#[trigger] deletion_query.edges@[k], *node, del.name@, date),
@@ -107,6 +108,8 @@ pub open spec fn src_of(del: EntityDeletion, p: Parameters) -> Uid { spec_uid(sp
                 final(deletion_query).edges@.len() > old(deletion_query).edges@.len()
                 && stored_row(src_of(*del, *old(parameters)), del.short_name@) is Some
                 && final(deletion_query).updated_nodes@.last() == (Node { mdate: date, ..stored_row(src_of(*del, *old(parameters)), del.short_name@)->Some_0 }),
+            // [source_row_redated_whenever_a_reference_is_removed]{C11,C01} whenever a reference is prepared for removal - also when another reference named by the same request does not exist - the source row is re-dated (and re-signed): the re-dating is what keeps the deleted reference from being fetched again from a peer that has not seen the deletion (references travel with versions of their source row newer than the one stored)
+            r is Ok && final(deletion_query).edges@.len() > old(deletion_query).edges@.len() ==> final(deletion_query).updated_nodes@.len() == old(deletion_query).updated_nodes@.len() + 1,
             // [no_replaced_version_without_a_redated_row]{C09} the bucket the re-dated source row LEAVES is recorded for the daily log: (room, entity, modification date) of the STORED version - not the date it is re-dated to -, exactly one record per re-dated row that belongs to a room, none otherwise
             r is Ok && final(deletion_query).updated_nodes@.len() == old(deletion_query).updated_nodes@.len() ==> final(deletion_query).replaced_versions@ == old(deletion_query).replaced_versions@,
             // [redated_row_records_the_day_it_leaves]{C09}
